@@ -3,6 +3,7 @@ package c13
 import (
 	"fmt"
 	"sort"
+	"strings"
 	"testing"
 
 	regexp2 "github.com/dlclark/regexp2/v2"
@@ -242,7 +243,8 @@ func check(c Case) error {
 			}
 			// the Regexp stays usable
 			pm, perr := lm.re.FindRunesMatch(probe)
-			if perr != regexp2.ErrBacktrackingStackLimit {
+			// (a timeout on either side is the engine's 400 ms safety net on a catastrophic pattern: wall-clock, not compared)
+			if perr != regexp2.ErrBacktrackingStackLimit && canon.ErrClass(perr) != "timeout" && !strings.Contains(probeWant, "timeout") {
 				if got := canon.Desc(lm.re, pm, perr); got != probeWant {
 					return fail(fmt.Sprintf("after the call the probe gives %s, a fresh Regexp gives %s", got, probeWant))
 				}
